@@ -208,4 +208,17 @@ PROPS = {
                 "Non-trivial: >=1 executed line and the verdict involves a negation, a condition guard, a failing line at position > 1, stop/skip, or a background wait. Distinct by case.",
         "assumptions": ["umask 022", "PATH contains the helper directory created by testscript.Main"],
     },
+    "C02": {
+        "pkg": "c02_words",
+        "level": "exploration",
+        "engine": "rapid+tsmodel",
+        "fuzz": [{"name": "FuzzLine", "seconds": 60}],
+        "technique": "rapid property tests through RunT (the tokenizer is unexported): (a) constructive - words are built from pieces (literal bytes under a drawn quoting strategy, $NAME, ${NAME}, ${NAME@R}, $$) over a drawn assignment history, so the expected argv is known by construction; (b) analytic - grammar-generated raw lines against a reference tokenizer written from the statement; observations through a probe command, TestScript.Getenv, and the environment printed by an executed helper",
+        "level_text": "(a) 3-20 steps per script: env/setenv assignments (identifier and wider names, values with blanks, quotes, $, #, CR, ${X} look-alikes, invalid UTF-8), probe lines of 0-4 words of 1-4 pieces with trailing comments, getenv, printenv and whole-environment dumps by an exec'ed helper. The argv received by probe must equal the concatenation of piece values under the latest assignment (one word each, not re-split, not re-expanded), ${NAME@R} must compile, match the value and none of its near-misses, Getenv and the child's environment must show the latest values (the child's whole environment = last-wins map + PWD). (b) raw lines over a 27-token structural alphabet: argv must equal the reference tokenizer's, lines with an unterminated quote must fail at that line.",
+        "level_note": "Trusted: the 100-line reference tokenizer (harness/tsmodel/token.go) for (b); (a) needs no model. Unquoted CR, os.Expand forms other than $NAME ${NAME} ${NAME@R} $$, names with blanks, and @R of invalid UTF-8 are outside the statement and are not generated.",
+        "shards": {"quick": 4, "thorough": 16},
+        "rule": "(a) case = Setup variables (0-4, duplicates allowed) + 3-20 steps; (b) case = 1-20 raw argument lines of 0-12 tokens from the structural alphabet. "
+                "Non-trivial: (a) a quoted chunk adjacent to other text, a reassigned variable, or an @R expansion; (b) a line with both a quote and a $. Distinct by case.",
+        "assumptions": ["values contain no newline (script lines) and no NUL when passed to a child process"],
+    },
 }
